@@ -1,7 +1,7 @@
 (* Properties_C16.v -- the property theorems, nothing else. *)
 From Coq Require Import List Arith Bool.
 Import ListNotations.
-From Heph Require Import Context.Model Context.Spec Context.Proofs.
+From Heph Require Import Context.Model Context.Spec Context.Proofs Context.ProofsQueries.
 
 Theorem current_lookup : forall h k n nm, od_get Nat.eqb (cur (run h) n k) nm = live h k n nm.
 Proof. exact current_lookup_pf. Qed.
@@ -19,10 +19,34 @@ Theorem current_query : forall h k n, n <> [] -> exists d, get_declarations (run
 Proof. exact current_query_pf. Qed.
 Print Assumptions current_query.
 
+Theorem enclosing_query : forall h k n, 2 <= length n -> exists d, get_declarations (run h) n k false false true = QOk d /\ NoDup (map fst d) /\ forall nm, od_get Nat.eqb d nm = innermost h k n nm.
+Proof. exact enclosing_query_pf. Qed.
+Print Assumptions enclosing_query.
+
 Theorem hide_none : forall s n k oc gl d, get_declarations s n k oc gl true = QOk d -> get_declarations s n k oc gl false = QOk (drop_none d).
 Proof. exact hide_none_pf. Qed.
 Print Assumptions hide_none.
 
+Theorem walk_fuel_ok : forall s none n, walk (walk_fuel s) s none n <> None.
+Proof. exact walk_fuel_ok_pf. Qed.
+Print Assumptions walk_fuel_ok.
+
+Theorem glob_query : forall h k n, n <> [] -> exists d, get_declarations (run h) n k false true true = QOk d /\ (forall nm, In nm (map fst d) <-> exists m, Reach (run h) (root_of n) m /\ live h k m nm <> None) /\ (forall nm v, od_get Nat.eqb d nm = Some v -> exists m, Reach (run h) (root_of n) m /\ live h k m nm = Some v).
+Proof. exact glob_query_pf. Qed.
+Print Assumptions glob_query.
+
+Theorem lookup_innermost : forall h n nm, exists r, get_decl (run h) n nm None = Some r /\ match r with | None => forall j, 1 <= j <= length n -> truthy (live h Decls (firstn j n) nm) = None | Some (m, o) => exists j, 1 <= j <= length n /\ m = firstn j n /\ truthy (live h Decls m nm) = Some o /\ forall j', j < j' <= length n -> truthy (live h Decls (firstn j' n) nm) = None end.
+Proof. exact lookup_innermost_pf. Qed.
+Print Assumptions lookup_innermost.
+
 Theorem remove_local : forall h p n nm o, (o = match p with Types => RemType n nm | Funcs => RemFunc n nm | Lambdas => RemLambda n nm | Vars => RemVar n nm | Classes => RemClass n nm | Decls => RemVar n nm end) -> (forall k, writes (match p with Decls => Vars | x => x end) k = true -> live (h ++ [o]) k n nm = None) /\ (forall k n' nm', (writes (match p with Decls => Vars | x => x end) k = false \/ n' <> n \/ nm' <> nm) -> live (h ++ [o]) k n' nm' = live h k n' nm').
 Proof. exact remove_local_pf. Qed.
 Print Assumptions remove_local.
+
+Theorem remove_falls_through : forall h n nm, n <> [] -> get_decl (run (h ++ [RemVar n nm])) n nm None = get_decl (run (h ++ [RemVar n nm])) (removelast n) nm None.
+Proof. exact remove_falls_through_pf. Qed.
+Print Assumptions remove_falls_through.
+
+Theorem reverse_lookup : forall h1 o h2 n v, is_add_of o n v -> all_neutral (run (h1 ++ [o])) v h2 -> get_namespace (run (h1 ++ [o] ++ h2)) v = Some n.
+Proof. exact reverse_lookup_pf. Qed.
+Print Assumptions reverse_lookup.
